@@ -30,6 +30,162 @@ func k() { if false { f(1) } else { f(2) }; if true { f(3) } else if false { f(4
 const debug = false
 func d() { if debug { if true { f(7) } else { f(8) } }; if !debug { f(9) }; func() { if debug { f(10) } }() }
 `,
+	// "kitchen sink": every child slot of every expression / statement kind holds a call of pr, so that a walker
+	// that skips, repeats or reorders any one field shows in the trace of this file (and in the reports of a
+	// `pr($x)` rule) as a concrete failing input, not only in the regenerated table
+	`package ks
+type S struct{ a, b int; next *S; f func(int) int; m map[int]int; c chan int; s []int; arr [4]int }
+func pr(x int) int { return x }
+func ps(x int) *S { return &S{} }
+func pb(x int) bool { return x > 0 }
+func pf(x int) func(int) int { return pr }
+func pc(x int) chan int { return nil }
+func pi(x int) interface{} { return x }
+func pl(x int) []int { return nil }
+func pm(x int) map[int]int { return nil }
+func gen[T any, U any](t T, u U) T { return t }
+func sink(xs ...interface{}) {}
+func exprs(s *S) (int, error) {
+	_ = ps(1).s[pr(2):pr(3)]
+	_ = ps(4).s[pr(5):pr(6):pr(7)]
+	_ = ps(8).s[:pr(9)]
+	_ = ps(10).s[pr(11):]
+	_ = ps(12).arr[pr(13)]
+	_ = ps(14).m[pr(15)]
+	_ = pf(16)(pr(17))
+	_ = gen[int, string](pr(18), "x")
+	_ = *ps(19)
+	_ = -pr(20)
+	_ = pr(21) + pr(22)*pr(23)
+	_ = (pr(24))
+	_ = ps(25).next.next.a
+	_ = pi(26).(int)
+	_ = S{a: pr(27), b: pr(28)}
+	_ = S{pr(29), pr(30), nil, nil, nil, nil, nil, [4]int{}}
+	_ = []int{pr(31), 2: pr(32)}
+	_ = map[int]int{pr(33): pr(34)}
+	_ = [...]*S{ps(35), {a: pr(36)}}
+	_ = func(x int) int { return pr(37) + x }(pr(38))
+	_ = &S{a: pr(39)}
+	_ = <-pc(40)
+	_ = !pb(41) && pb(42) || pb(43)
+	_ = []func(int) int{pf(44)}[pr(45)](pr(46))
+	sink(pr(47), pl(48), pm(49))
+	sink(pl(50)...)
+	return pr(51), nil
+}
+func stmts(s *S, ch chan int) (r int) {
+	var v1, v2 = pr(100), pr(101)
+	var v3 int = pr(102)
+	const k = 3
+	x, y := pr(103), pr(104)
+	x, y = pr(105), pr(106)
+	ps(107).a, ps(108).s[pr(109)] = pr(110), pr(111)
+	x += pr(112)
+	ps(113).a++
+	ps(114).s[pr(115)]--
+	pc(116) <- pr(117)
+	go pf(118)(pr(119))
+	defer pf(120)(pr(121))
+	pr(122)
+	{
+		pr(123)
+	}
+	if z := pr(124); pb(125) {
+		pr(126)
+	} else if pb(127) {
+		pr(128)
+	} else {
+		pr(129)
+	}
+	switch w := pr(130); pr(131) {
+	case pr(132), pr(133):
+		pr(134)
+		pr(w)
+		fallthrough
+	default:
+		pr(135)
+	}
+	switch {
+	case pb(136):
+		pr(137)
+	}
+	switch q := pi(138).(type) {
+	case int, string:
+		pr(139)
+		_ = q
+	default:
+		pr(140)
+	}
+	switch u := pr(141); pi(u).(type) {
+	case nil:
+		pr(142)
+	}
+	select {
+	case a := <-pc(143):
+		pr(a)
+		pr(144)
+	case pc(145) <- pr(146):
+		pr(147)
+		pr(148)
+	case <-pc(149):
+	default:
+		pr(150)
+		pr(151)
+	}
+	for i := pr(152); pb(i); i += pr(153) {
+		pr(154)
+		if pb(155) {
+			continue
+		}
+		break
+	}
+	for pb(156) {
+		pr(157)
+	}
+	for {
+		pr(158)
+		break
+	}
+	for i, e := range pl(159) {
+		pr(i + e)
+	}
+	for i := range pm(160) {
+		pr(i)
+	}
+	for range pl(161) {
+		pr(162)
+	}
+	for ps(163).a, ps(164).b = range pl(165) {
+	}
+outer:
+	for {
+		for {
+			pr(166)
+			break outer
+		}
+	}
+	func() {
+		defer func() { pr(167) }()
+		pr(168)
+	}()
+	type local struct{ f int }
+	_ = local{f: pr(169)}
+	_, _, _, _, _ = v1, v2, v3, y, k
+	if pb(170) {
+		return pr(171)
+	}
+	goto end
+end:
+	return pr(172) + x
+}
+func (s *S) method(a int, bs ...int) (n int, err error) { return pr(a) + pr(len(bs)), nil }
+var pkgVar, pkgVar2 = pr(200), pr(201)
+var (
+	grouped = pr(202)
+	typed int = pr(203)
+)
+`,
 }
 
 func runC01(c *Ctx) error {
